@@ -64,7 +64,8 @@ func (c01) Case(c *core.Ctx) {
 		c.Count("skipped:outside-domain")
 		return
 	}
-	doc := append([]byte(xt.Prolog(r)), xt.Render(r, root, xt.Style{KeepSpaces: cfg.KeepSpaces})...)
+	cfg.scopeKeepSpaces(root)
+	doc := append([]byte(xt.Prolog(r)), xt.Render(r, root, xt.Style{KeepSpaces: cfg.KeepSpaces, NoWS: cfg.KeepSpaces})...)
 	if r.Intn(4) == 0 {
 		doc = append(doc, []string{"\n", " ", "<!-- tail -->", "\n<next/>"}[r.Intn(4)]...)
 	}
